@@ -41,6 +41,7 @@ func (deb *Deb) CheckDebsig(validKeys openpgp.EntityList, sigType string) (signe
 	binaryFlag.Data.Seek(0, 0)
 	control.Data.Seek(0, 0)
 	data.Data.Seek(0, 0)
+	sig.Data.Seek(0, 0)
 	signedData := io.MultiReader(binaryFlag.Data, control.Data, data.Data)
 	return openpgp.CheckDetachedSignature(validKeys, signedData, sig.Data)
 }
